@@ -360,6 +360,57 @@ def _edges_of(result, entry):
     return [np.asarray(result[1]).tolist(), np.asarray(result[2]).tolist()]
 
 
+DOMAIN_ATTRS = ("classes_", "n_classes_", "classes", "bounds", "bounds_X", "bounds_y", "data_norm")
+
+
+def _domain_attrs(c, result):
+    """the domain quantities a call ends up using, canonical and comparable"""
+    e = c["entry"]
+    if e in ("histogram", "histogramdd", "histogram2d"):
+        return {"edges": _edges_of(result, e)}
+    est = result
+    out = {}
+    has_classes = "classes" in c["params"]
+    for a in DOMAIN_ATTRS:
+        if a in ("classes_", "n_classes_", "classes") and not has_classes:
+            continue            # the label set of estimators WITHOUT a `classes` parameter is taken from y by design
+        if hasattr(est, a):
+            v = getattr(est, a)
+            try:
+                out[a] = [np.asarray(x, dtype=float).tolist() for x in v] if isinstance(v, tuple) else np.asarray(v, dtype=float).tolist()
+            except Exception:  # noqa
+                out[a] = repr(v)
+    if has_classes and hasattr(est, "estimators_"):
+        out["trees.classes_"] = [np.asarray(t.classes_, dtype=float).tolist() for t in est.estimators_]
+    return out
+
+
+def _domain_probe(c, X, y, PLW):
+    import warnings
+    res = {"differs": [], "plw": None, "err": None}
+    try:
+        with warnings.catch_warnings():
+            warnings.simplefilter("ignore")
+            a1 = _domain_attrs(c, _make_call(c, X, y)())
+        X2, y2 = X.copy(), y.copy()
+        X2[0] = 5.0                      # outside the supplied bounds / range, norm above the supplied data_norm
+        y2[0] = 7                        # a label outside the supplied classes
+        with warnings.catch_warnings(record=True) as w:
+            warnings.simplefilter("always")
+            try:
+                r2 = _make_call(c, X2, y2)()
+            except Exception as ex:  # noqa - refusing data outside the declared domain is fine
+                res["err"] = f"{type(ex).__name__}:{str(ex)[:100]}"
+                return res
+            res["plw"] = len([x for x in w if issubclass(x.category, PLW)])
+        a2 = _domain_attrs(c, r2)
+        res["differs"] = sorted(k for k in set(a1) | set(a2) if a1.get(k) != a2.get(k))
+        res["values"] = {k: [str(a1.get(k))[:80], str(a2.get(k))[:80]] for k in res["differs"]}
+    except Exception as ex:  # noqa
+        res["err"] = f"probe:{type(ex).__name__}:{str(ex)[:100]}"
+    return res
+
+
 def worker_main():
     """runs in a fresh interpreter; stdin: {"cells": [...], "seeds": [...]}; stdout: one JSON line per (cell, seed)"""
     import warnings
@@ -399,6 +450,11 @@ def worker_main():
                     except Exception as ex:  # noqa
                         rec["derive_obs"] = None
                         rec["err"].append(f"probe:{type(ex).__name__}:{str(ex)[:120]}")
+            # with EVERY domain parameter supplied, the fitted domain attributes (classes_, bounds, data_norm, edges …) must
+            # be a function of the supplied parameters only: fit on data that DISAGREES with them (a value outside the
+            # bounds / range, a norm above data_norm, a label outside classes) and compare with the in-domain fit
+            if not c["omit"] and not c.get("note_only") and c["entry"] not in BOUNDS_TOOLS + ["count_nonzero", "covariance_eig"]:
+                rec["domain_probe"] = _domain_probe(c, X, y, PrivacyLeakWarning)
             out["results"].append(rec)
     # note only: second fit on the SAME estimator instance
     try:
@@ -461,6 +517,15 @@ def judge(ctx, c, rec, model_out):
             ctx.disagree("numpy.histogram-fallback", {"cell": key}, f"derives={needs}", f"edges differ={rec['derive_obs']}")
         needs = needs or rec["derive_obs"]
     ctx.case(key if needs else None)
+    dpb = rec.get("domain_probe")
+    if dpb and dpb.get("differs") and not dpb.get("plw"):
+        ctx.violation(f"C11:{c['entry']}:{dpb['differs'][0]}:data-derived-despite-supplied",
+                      f"{c['entry']} with every domain parameter supplied ({json.dumps(c['variant'])}): fitted on data with "
+                      f"one record outside the declared domain (x = 5.0, label 7), {dpb['differs']} differ from the in-domain "
+                      f"fit ({dpb.get('values')}) and no PrivacyLeakWarning was raised",
+                      dict(data, probe="domain"))
+    elif dpb and dpb.get("err") and dpb["err"].startswith("probe:"):
+        ctx.disagree("matrix.domain-probe", {"cell": key}, "comparable", dpb["err"])
     # S: the property itself
     if needs and n1 == 0:
         ctx.violation(signature(c, False),
@@ -545,6 +610,9 @@ def replay(ctx, data):
     n1, n2 = rec["n"]
     if any(rec["err"][:2]):
         return False
+    if data.get("signature", "").endswith("data-derived-despite-supplied"):
+        dpb = rec.get("domain_probe") or {}
+        return bool(dpb.get("differs")) and not dpb.get("plw")
     if data.get("signature", "").endswith("second-call-silent"):
         return bool(n1) and n2 == 0
     return n1 == 0
